@@ -332,6 +332,9 @@ func vNewNode(tb testing.TB, spec vnodeSpec) *vnode {
 		}
 	}
 
+	// advertise a fixed set of local underlay addresses instead of this machine's NICs (determinism)
+	lightHouse.localAddrsFn = func(*LocalAllowList) []netip.Addr { return []netip.Addr{udpAddr.Addr()} }
+
 	messageMetrics := newMessageMetricsOnlyRecvError()
 	handshakeConfig := HandshakeConfig{
 		tryInterval:    c.GetDuration("handshakes.try_interval", DefaultHandshakeTryInterval),
@@ -702,4 +705,68 @@ func (n *vnode) pendingAddrs() []string {
 	}
 	sort.Strings(out)
 	return out
+}
+
+// ---------------------------------------------------------------------------------------------------------------
+// scenario helpers
+
+// injectLighthouseAddr teaches the node an underlay address for vpnIp (what a lighthouse reply would do).
+func (n *vnode) injectLighthouseAddr(vpnIp netip.Addr, to netip.AddrPort) {
+	n.lh.Lock()
+	rl := n.lh.unlockedGetRemoteList([]netip.Addr{vpnIp})
+	rl.Lock()
+	n.lh.Unlock()
+	if to.Addr().Is4() {
+		rl.unlockedPrependV4(vpnIp, netAddrToProtoV4AddrPort(to.Addr(), to.Port()))
+	} else {
+		rl.unlockedPrependV6(vpnIp, netAddrToProtoV6AddrPort(to.Addr(), to.Port()))
+	}
+	rl.Unlock()
+}
+
+// injectRelays tells the node that vpnIp can be reached through the given relays.
+func (n *vnode) injectRelays(vpnIp netip.Addr, relays []netip.Addr) {
+	n.lh.Lock()
+	rl := n.lh.unlockedGetRemoteList([]netip.Addr{vpnIp})
+	rl.Lock()
+	n.lh.Unlock()
+	rl.unlockedSetRelay(vpnIp, relays)
+	rl.Unlock()
+}
+
+// vRelayNet builds A — R — B: A and B can only reach each other through relay R.
+// A: 10.0.0.1 @192.0.2.1, R: 10.0.0.9 @192.0.2.9, B: 10.0.0.2 @192.0.2.2. Extra nodes may be appended.
+func vRelayNet(tb testing.TB, seed int64, extra ...vnodeSpec) *vnet {
+	a := vnodeSpec{Name: "a", Networks: "10.0.0.1/24", Udp: "192.0.2.1:4242", Overrides: m{"relay": m{"use_relays": true}}}
+	r := vnodeSpec{Name: "r", Networks: "10.0.0.9/24", Udp: "192.0.2.9:4242", Overrides: m{"relay": m{"am_relay": true}}}
+	b := vnodeSpec{Name: "b", Networks: "10.0.0.2/24", Udp: "192.0.2.2:4242", Overrides: m{"relay": m{"use_relays": true}}}
+	net := vNewNet(tb, seed, append([]vnodeSpec{a, r, b}, extra...)...)
+	na, nr, nb := net.node("a"), net.node("r"), net.node("b")
+	na.injectLighthouseAddr(nr.vpnIP, nr.udp)
+	na.injectRelays(nb.vpnIP, []netip.Addr{nr.vpnIP})
+	nr.injectLighthouseAddr(nb.vpnIP, nb.udp)
+	nr.injectLighthouseAddr(na.vpnIP, na.udp)
+	nb.injectLighthouseAddr(nr.vpnIP, nr.udp)
+	nb.injectRelays(na.vpnIP, []netip.Addr{nr.vpnIP})
+	return net
+}
+
+// establish sends one tun packet from->to and runs the network loss-free (with handshake timer ticks) until it is
+// delivered. Returns false if it never arrives.
+func (v *vnet) establish(from, to *vnode, marker string) bool {
+	before := len(v.tunLog[to.spec.Name])
+	from.tunSend(vUDPPacket(from.vpnIP, to.vpnIP, 1000, 2000, []byte(marker)))
+	v.collect()
+	for round := 0; round < 40; round++ {
+		v.flushFIFO(200)
+		if len(v.tunLog[to.spec.Name]) > before {
+			return true
+		}
+		vtime.Advance(100 * vtime.Millisecond)
+		for _, n := range v.nodes {
+			n.hsTick()
+		}
+		v.collect()
+	}
+	return len(v.tunLog[to.spec.Name]) > before
 }
